@@ -268,6 +268,21 @@ func trunc(s string, n int) string {
 // check runs one scenario and applies the monitor.
 func (d *D) check(sc *core.Scenario, ctx *core.Ctx) *core.Violation {
 	if sc.Kind == "stream" {
+		// only accepted programs are this property's business: a program the
+		// parser rejects – or crashes on, which is C03's pure-input territory – is skipped and counted
+		pre := &core.Result{}
+		core.InstallSchedule(&sc.Schedule)
+		if core.ParseProgram(sc.Program, pre) == nil {
+			if ctx != nil {
+				ctx.Inc("evaluations", 1)
+				if pre.EndClass == core.EndParserCrash {
+					ctx.Inc("parser_crash_observed_outside_scope(C03)", 1)
+				} else {
+					ctx.Inc("programs_rejected_by_parser", 1)
+				}
+			}
+			return nil
+		}
 		o := d.runStream(sc)
 		if ctx != nil {
 			ctx.Inc("evaluations", 1)
@@ -324,6 +339,9 @@ func (d *D) check(sc *core.Scenario, ctx *core.Ctx) *core.Violation {
 		}
 	}
 	if !res.Accepted {
+		if ctx != nil && res.EndClass == core.EndParserCrash {
+			ctx.Inc("parser_crash_observed_outside_scope(C03)", 1)
+		}
 		return nil
 	}
 	obs := func() map[string]any {
